@@ -852,12 +852,92 @@ PARTIAL = [
 ]
 
 
+
+def oracle_sequences(ctx, volume=1):
+    """several products in ONE process with the same name sequence and the same total dimension but differently
+    distributed subsystem dimensions, back to back in both orders (stale state between calls must not leak)"""
+    g = ctx.npgen(6)
+    quick = ctx.quick and volume == 1
+    plans = []
+    nm = [(5, 2), (6, 3), (7, 1), (8, 4)]
+    for i, ts in enumerate(["SS", "PP", "GG", "MM"] if quick else ["SS", "PP", "GG", "MM", "GM", "MG", "SE", "EE"]):
+        a, b = nm[i % 4], nm[(i + 1) % 4]
+        plans.append((ts, a, [(2, 3), (3, 2)]))
+        plans.append((ts, b, [(3, 2), (2, 3)]))
+    three = [("SSS", (4, 7, 1), [(2, 3, 2), (3, 2, 2)])]
+    if not quick:
+        three += [("SSS", (6, 2, 5), [(2, 2, 3), (2, 3, 2), (3, 2, 2)]), ("PPP", (3, 8, 0), [(3, 2, 2), (2, 2, 3)])]
+    plans += three
+    for ts, names, dimseq in plans:
+        for step, dims in enumerate(dimseq):
+            k = len(ts)
+            counts = counts_for(k, g)
+            fs = [make_factor(g, ts[i], names[i], dims[i], counts[i], t=step + i) for i in range(k)]
+            tr = trees(0, k)[-1]       # left fold
+            rep = {"replay_kind": "sequence", "types": ts, "names": list(names), "dims": list(dims), "step": step,
+                   "sequence": [list(d) for d in dimseq], "counts": [f.counts for f in fs], "tree": tstr(tr),
+                   "seed": ctx.seed, "tier": ctx.tier, "volume": volume}
+            ctx.case(("sequence", ts, names, dims, step), sample={"op": "sequence", "types": ts, "names": list(names), "dims": list(dims), "step": step})
+            ctx.count(f"sequence {ts} step {step}")
+            viol = []
+            eval_node(tr, fs, rep, viol)
+            for sig, what, r in viol:
+                ctx.violate(sig, what + f" [product {step + 1} of the sequence {[list(d) for d in dimseq]} with names {list(names)}]", r)
+
+
+def oracle_povm_accessors(ctx, volume=1):
+    """tuple accessors of product POVMs: vec / matrix / matrix_with_sparsity at every multi-index against the
+    Kronecker product of the factors' effects — the multi-index is laid out as nums_local_outcomes says"""
+    g = ctx.npgen(8)
+    for counts in ([2, 3], [4, 2], [2, 3, 4]):
+        k = len(counts)
+        names = sorted(int(x) for x in g.choice(9, size=k, replace=False))
+        fs0 = [make_factor(g, "P", names[i], 2, counts[i], t=i) for i in range(k)]
+        B = prod_basis([2] * k)
+        for perm in itertools.permutations(range(k)):
+            fs = [fs0[i] for i in perm]
+            rep = {"replay_kind": "accessor", "counts": counts, "names": [f.esys.name for f in fs], "seed": ctx.seed,
+                   "tier": ctx.tier, "volume": volume}
+            ctx.case(("accessor", tuple(counts), perm), nontrivial=list(perm) != sorted(perm),
+                     sample={"op": "povm tuple accessors", "counts": counts, "names": rep["names"]})
+            try:
+                povm = tensor_product(*[f.obj for f in fs])
+            except Exception as e:  # noqa
+                ctx.violate("C07/povm-accessor/product-raises", f"{type(e).__name__}: {e}", rep)
+                continue
+            sp = sorted_parts(fs)
+            if list(povm.nums_local_outcomes) != [f.counts[0] for f in sp]:
+                continue      # reported by the tensor oracle
+            done = False
+            for idx in itertools.product(*[range(f.counts[0]) for f in sp]):
+                exp = kron_all([f.ops[i] for f, i in zip(sp, idx)])
+                for acc in ("vec", "matrix", "matrix_with_sparsity"):
+                    try:
+                        got = getattr(povm, acc)(tuple(idx))
+                        got = mat_in(B, got) if acc == "vec" else np.asarray(got.toarray() if hasattr(got, "toarray") else got)
+                    except Exception as e:  # noqa
+                        ctx.violate(f"C07/povm-accessor/{acc}/raises", f"{type(e).__name__}: {str(e)[:100]} at multi-index {idx} of a product "
+                                    f"POVM with nums_local_outcomes {list(povm.nums_local_outcomes)}", dict(rep, index=list(idx)))
+                        done = True
+                        break
+                    if got.shape != exp.shape or not np.allclose(got, exp, atol=1e-8):
+                        ctx.violate(f"C07/povm-accessor/{acc}/value", f"{acc}({idx}) of a product POVM with nums_local_outcomes "
+                                    f"{list(povm.nums_local_outcomes)} is not the Kronecker product of the factors' elements {idx}",
+                                    dict(rep, index=list(idx)))
+                        done = True
+                        break
+                if done:
+                    break
+
+
 def oracle(ctx, volume=1):
     ctx.partial = PARTIAL
     oracle_perm(ctx, volume)
     oracle_tensor(ctx, volume)
     oracle_basis(ctx)
     oracle_embed(ctx, volume)
+    oracle_sequences(ctx, volume)
+    oracle_povm_accessors(ctx, volume)
 
 
 def search(ctx):
